@@ -44,6 +44,13 @@ func role(e paths.Event, v ssa.Value) string {
 		}
 		return x.Value.String()
 	case *ssa.Parameter:
+		if f := x.Parent(); f != nil {
+			for i, q := range f.Params {
+				if q == x {
+					return fmt.Sprintf("p%d", i)
+				}
+			}
+		}
 		return "param"
 	case *ssa.Convert:
 		return role(e, x.X)
@@ -62,6 +69,20 @@ func role(e paths.Event, v ssa.Value) string {
 	case *ssa.Global:
 		return "global:" + x.Name()
 	case *ssa.Slice:
+		// composite literal []T{a, b}: new [n]T with element stores, sliced whole
+		if al, ok := x.X.(*ssa.Alloc); ok && x.Low == nil && x.High == nil {
+			if vals := arrayStores(al); len(vals) > 0 {
+				var parts []string
+				for _, v := range vals {
+					if v == nil {
+						parts = append(parts, "?")
+					} else {
+						parts = append(parts, role(e, v))
+					}
+				}
+				return "[" + strings.Join(parts, ",") + "]"
+			}
+		}
 		// make([]T, N) with constant N compiles to new [N]T; slice [:N]
 		if al, ok := x.X.(*ssa.Alloc); ok && x.Low == nil {
 			if arr, ok := al.Type().Underlying().(*types.Pointer).Elem().Underlying().(*types.Array); ok {
@@ -78,9 +99,18 @@ func role(e paths.Event, v ssa.Value) string {
 			hi = role(e, x.High)
 		}
 		return role(e, x.X) + "[" + lo + ":" + hi + "]"
+	case *ssa.Lookup:
+		return role(e, x.X) + "[" + role(e, x.Index) + "]"
+	case *ssa.Index:
+		return role(e, x.X) + "[" + role(e, x.Index) + "]"
+	case *ssa.IndexAddr:
+		return "&" + role(e, x.X) + "[" + role(e, x.Index) + "]"
 	case *ssa.UnOp:
 		if g, ok := x.X.(*ssa.Global); ok && x.Op == token.MUL {
 			return "global:" + g.Name()
+		}
+		if ia, ok := x.X.(*ssa.IndexAddr); ok && x.Op == token.MUL {
+			return role(e, ia.X) + "[" + role(e, ia.Index) + "]"
 		}
 		if x.Op == token.MUL {
 			return "*" + role(e, x.X)
@@ -99,7 +129,7 @@ func callRole(e paths.Event, x *ssa.Call) string {
 	name := ""
 	switch {
 	case x.Call.IsInvoke():
-		name = x.Call.Method.Name()
+		name = role(e, x.Call.Value) + "." + x.Call.Method.Name()
 		for _, a := range x.Call.Args {
 			args = append(args, role(e, a))
 		}
@@ -154,7 +184,11 @@ func proposition(e paths.Event) string {
 	case token.GEQ:
 		return x + ">=" + y
 	case token.EQL, token.NEQ:
-		if y < x {
+		// constants and nil go to the right, otherwise lexical order
+		isK := func(r string) bool {
+			return r == "nil" || (len(r) > 1 && r[0] == 'k' && r[1] >= '0' && r[1] <= '9') || (len(r) > 0 && r[0] == '"')
+		}
+		if (isK(x) && !isK(y)) || (isK(x) == isK(y) && y < x) {
 			x, y = y, x
 		}
 		return x + op.String() + y
@@ -318,10 +352,10 @@ func runC04(c *core.Ctx) {
 }
 
 const (
-	roleP4   = "Peek(k4)#0"
-	roleL    = "be32(Peek(k4)#0)"
-	rolePF   = "Peek(be32(Peek(k4)#0))#0"
-	roleDisc = "Discard(be32(Peek(k4)#0))"
+	roleP4   = "p1.Peek(k4)#0"
+	roleL    = "be32(p1.Peek(k4)#0)"
+	rolePF   = "p1.Peek(be32(p1.Peek(k4)#0))#0"
+	roleDisc = "p1.Discard(be32(p1.Peek(k4)#0))"
 )
 
 func decodeRules(c *core.Ctx, key, pos string, ps []c04path) {
@@ -329,7 +363,7 @@ func decodeRules(c *core.Ctx, key, pos string, ps []c04path) {
 	frames := 0
 	allowedIncomplete := map[string]bool{
 		"len(" + roleP4 + ")<k4":       true,
-		"Size()<" + roleL:              true,
+		"p1.Size()<" + roleL:           true,
 		"len(" + rolePF + ")<" + roleL: true,
 	}
 	for _, p := range ps {
@@ -339,7 +373,7 @@ func decodeRules(c *core.Ctx, key, pos string, ps []c04path) {
 		}
 		consumes := false
 		for _, cl := range p.calls {
-			if strings.HasPrefix(cl, "Discard(") || strings.HasPrefix(cl, "Read(") || strings.HasPrefix(cl, "ReadFull(") {
+			if strings.HasPrefix(cl, "p1.Discard(") || strings.HasPrefix(cl, "p1.Read(") || strings.HasPrefix(cl, "ReadFull(") {
 				consumes = true
 			}
 		}
@@ -362,7 +396,7 @@ func decodeRules(c *core.Ctx, key, pos string, ps []c04path) {
 		// LOWER: uses of L need L>=4 first
 		firstUse := -1
 		for i, s := range p.sig {
-			if strings.HasPrefix(s, "call:") && strings.Contains(s, roleL) {
+			if (strings.HasPrefix(s, "call:p1.") || strings.HasPrefix(s, "call:ReadFull(") || strings.HasPrefix(s, "call:copy(")) && strings.Contains(s, roleL) {
 				firstUse = i
 				break
 			}
@@ -384,7 +418,7 @@ func decodeRules(c *core.Ctx, key, pos string, ps []c04path) {
 		}
 		if p.r0 != "nil" {
 			frames++
-			need := []string{"if:len(" + roleP4 + ")>=k4", "if:" + roleL + ">=k4", "if:Size()>=" + roleL, "call:Peek(" + roleL + ")",
+			need := []string{"if:len(" + roleP4 + ")>=k4", "if:" + roleL + ">=k4", "if:p1.Size()>=" + roleL, "call:p1.Peek(" + roleL + ")",
 				"if:len(" + rolePF + ")>=" + roleL, "call:" + roleDisc, "if:" + roleDisc + "#1==nil"}
 			lastIdx := -1
 			for _, n := range need {
@@ -404,13 +438,13 @@ func decodeRules(c *core.Ctx, key, pos string, ps []c04path) {
 			}
 			n := 0
 			for _, cl := range p.calls {
-				if strings.HasPrefix(cl, "Discard(") {
+				if strings.HasPrefix(cl, "p1.Discard(") {
 					n++
 					if cl != roleDisc {
 						exact = append(exact, "Discard is called with "+cl+" instead of the announced length")
 					}
 				}
-				if strings.HasPrefix(cl, "Read(") || strings.HasPrefix(cl, "ReadFull(") {
+				if strings.HasPrefix(cl, "p1.Read(") || strings.HasPrefix(cl, "ReadFull(") {
 					exact = append(exact, "the non-blocking extractor reads from the connection")
 				}
 			}
@@ -450,8 +484,8 @@ func blockedRules(c *core.Ctx, key, pos string, ps []c04path) {
 		L     = "be32(make(k4))"
 		frame = "make(be32(make(k4)))"
 	)
-	rf1 := "ReadFull(param," + pre + ")"
-	rf2 := "ReadFull(param," + frame + "[k4:])"
+	rf1 := "ReadFull(p1," + pre + ")"
+	rf2 := "ReadFull(p1," + frame + "[k4:])"
 	var blocked, lower []string
 	frames := 0
 	for _, p := range ps {
@@ -461,7 +495,7 @@ func blockedRules(c *core.Ctx, key, pos string, ps []c04path) {
 		}
 		firstUse := -1
 		for i, s := range p.sig {
-			if strings.HasPrefix(s, "call:") && strings.Contains(s, L) {
+			if (strings.HasPrefix(s, "call:p1.") || strings.HasPrefix(s, "call:ReadFull(") || strings.HasPrefix(s, "call:copy(")) && strings.Contains(s, L) {
 				firstUse = i
 				break
 			}
